@@ -159,6 +159,9 @@ func coqPin(name, text string) (coq string, v bool, uerr bool) {
 	if v && err == nil && memberAtOdds(s) {
 		sawNestedAtOdds = true
 	}
+	if v && err == nil && anyElementsAtOdds(s) {
+		sawElementsAtOdds = true
+	}
 	unm := "None"
 	if err == nil {
 		unm = "(Some " + coqSchemaPtr(s) + ")"
@@ -196,10 +199,7 @@ func jsonCompatible(jt, k string) bool {
 	}
 	return false
 }
-func typeAtOdds(s *ffi2abi.Schema) bool {
-	if s == nil || s.Details == nil {
-		return false
-	}
+func declaredType(s *ffi2abi.Schema) (string, bool) {
 	jt := s.Type
 	if s.OneOf != nil {
 		var non []string
@@ -209,11 +209,62 @@ func typeAtOdds(s *ffi2abi.Schema) bool {
 			}
 		}
 		if len(non) != 1 {
-			return false
+			return "", false
 		}
 		jt = non[0]
 	}
-	return !jsonCompatible(jt, ethClass(s.Details.Type))
+	return jt, true
+}
+func typeAtOdds(s *ffi2abi.Schema) bool {
+	if s == nil || s.Details == nil {
+		return false
+	}
+	jt, ok := declaredType(s)
+	return ok && !jsonCompatible(jt, ethClass(s.Details.Type))
+}
+
+// the element descriptions of an array type (mirrors Spec.v elem_at_odds / elements_at_odds): one items level
+// per dimension of the Ethereum type, each of a JSON type that suits the type with that many dimensions stripped
+func stripDim(t string) string {
+	if t == "" {
+		return ""
+	}
+	i := strings.LastIndex(t[:len(t)-1], "[")
+	if i < 0 {
+		return ""
+	}
+	return t[:i]
+}
+func elemAtOdds(it *ffi2abi.Schema, t string) bool {
+	if jt, ok := declaredType(it); ok && !jsonCompatible(jt, ethClass(t)) {
+		return true
+	}
+	if strings.HasSuffix(t, "]") {
+		return it.Items == nil || elemAtOdds(it.Items, stripDim(t))
+	}
+	return false
+}
+func elementsAtOdds(s *ffi2abi.Schema) bool {
+	if s == nil || s.Details == nil || !strings.HasSuffix(s.Details.Type, "]") {
+		return false
+	}
+	return s.Items == nil || elemAtOdds(s.Items, stripDim(s.Details.Type))
+}
+
+// some schema of the tree that carries details has an items chain (present at the first level) at odds
+func anyElementsAtOdds(s *ffi2abi.Schema) bool {
+	if s == nil {
+		return false
+	}
+	if s.Items != nil && elementsAtOdds(s) {
+		return true
+	}
+	for _, m := range s.Properties {
+		if anyElementsAtOdds(m) {
+			return true
+		}
+	}
+	return anyElementsAtOdds(s.Items)
 }
 func memberAtOdds(s *ffi2abi.Schema) bool {
 	if s == nil {
@@ -300,6 +351,7 @@ var kindNames = []string{"method", "event", "error"}
 
 // set by coqPin when a parameter of the current case has a nested member at odds
 var sawNestedAtOdds bool
+var sawElementsAtOdds bool
 
 // addBack runs one FFI -> ABI conversion and records it.  nestedTypeMut marks inputs produced by
 // retyping the JSON type of a nested member (statistics only).
@@ -353,6 +405,7 @@ func (h *H) recordBack(kind int, name string, params, returns []pdesc, details s
 	var pins, rins []string
 	anyReject, anyUErr := false, false
 	sawNestedAtOdds = false
+	sawElementsAtOdds = false
 	for _, p := range params {
 		c, v, ue := coqPin(p.Name, p.Schema)
 		pins = append(pins, c)
@@ -377,6 +430,9 @@ func (h *H) recordBack(kind int, name string, params, returns []pdesc, details s
 	key := ""
 	if sawNestedAtOdds {
 		h.st.Hit(fmt.Sprintf("back:nested-member-json-type-at-odds:class=%d", cls))
+	}
+	if sawElementsAtOdds {
+		h.st.Hit(fmt.Sprintf("back:array-elements-at-odds:%s:class=%d", strings.SplitN(origin, ":", 2)[0], cls))
 	}
 	term := fmt.Sprintf("CBack %d %s %s %s %d %s %s %s %s", kind, cb(name), clist(pins), clist(rins), cls, cb(sig), ins, outs, cb(helper))
 	dk := fmt.Sprintf("b|%d|%s|%v|%v", kind, name, params, returns)
@@ -1275,6 +1331,24 @@ func main() {
 		{"x", `{"type":"object","details":{"type":"tuple"},"properties":{"a":{"type":"boolean","details":{"type":"uint256","index":0}}}}`},      // D20i: nested JSON type at odds
 		{"x", `{"type":"array","details":{"type":"tuple[][]"},"items":{"type":"array","items":{"type":"object","properties":{"a":{"type":"object","details":{"type":"string","index":0}}}}}}`}, // D20i under array levels
 		{"x", `{"type":"object","details":{"type":"tuple"},"properties":{"a":{"type":"string","details":{"type":"tuple","index":0}}}}`},          // D20i: string against a nested tuple
+		// D20k (fix 805ac6f): the element descriptions of an array against the element type, one items level per dimension
+		{"x", `{"type":"array","details":{"type":"uint256[]"},"items":{"type":"boolean"}}`},
+		{"x", `{"type":"array","details":{"type":"uint256[][]"},"items":{"oneOf":[{"type":"string"},{"type":"integer"}]}}`}, // one level for two dimensions
+		{"x", `{"type":"array","details":{"type":"tuple[]"},"items":{"type":"string","properties":{"a":{"type":"string","details":{"type":"string","index":0}}}}}`},
+		{"x", `{"type":"array","details":{"type":"uint256[]"},"items":{"type":"array","items":{"type":"string"}}}`}, // two levels for one dimension
+		{"x", `{"type":"array","details":{"type":"uint256[2][]"},"items":{"type":"array","items":{"oneOf":[{"type":"string"},{"type":"integer"}]}}}`},
+		{"x", `{"type":"array","details":{"type":"uint256[2][]"},"items":{"type":"array","items":{"type":"array","items":{"type":"string"}}}}`},
+		{"x", `{"type":"array","details":{"type":"uint256[2][]"},"items":{"type":"array","items":{"type":"boolean"}}}`},
+		{"x", `{"type":"array","details":{"type":"bool[3]"},"items":{"oneOf":[{"type":"string"},{"type":"boolean"}]}}`},
+		{"x", `{"type":"array","details":{"type":"bool[3]"},"items":{"oneOf":[{"type":"string"},{"type":"integer"}]}}`},
+		{"x", `{"type":"array","details":{"type":"bool[3]"},"items":{"type":"string"}}`},
+		{"x", `{"type":"array","details":{"type":"ufixed128x18[]"},"items":{"type":"integer"}}`},
+		{"x", `{"type":"array","details":{"type":"address[]"},"items":{"type":"object"}}`},
+		{"x", `{"type":"array","details":{"type":"string[]"},"items":{"type":"string","items":{"type":"boolean"}}}`}, // items below the element level are not read
+		{"x", `{"type":"array","details":{"type":"tuple[][]"},"items":{"type":"array","items":{"type":"array","properties":{}}}}`},
+		{"x", `{"type":"array","details":{"type":"tuple[]"},"items":{"type":"object","properties":{"a":{"type":"array","details":{"type":"uint8[]","index":0},"items":{"type":"boolean"}}}}}`}, // a member's elements
+		{"x", `{"type":"object","details":{"type":"tuple"},"properties":{"a":{"type":"array","details":{"type":"int8[][1]","index":0},"items":{"type":"array","items":{"type":"object"}}}}}`},
+		{"x", `{"type":"array","details":{"type":"uint8[]"},"items":{"type":"array","oneOf":[{"type":"string"},{"type":"integer"}],"items":{}}}`}, // oneOf decides, "type" drives the descent
 		{"x", `{"oneOf":[{"type":"string"},{"type":"integer"}],"details":{"type":"uint256"}}`},
 		{"x", `{"oneOf":[{"type":"string"},{"type":"integer"}],"details":{"type":"bool"}}`},
 		{"x", `{"oneOf":[{"type":"string"},{"type":"string"}],"details":{"type":"string"}}`},
